@@ -6,6 +6,7 @@ ALPHABETS = {
     'B': ('MC_TreeA', ['tuple', 'ddict', 'deque', 'nt', 'ss', 'custom', 'sub'], [1, 2], [0, 3], [0, 1]),
     'B1': ('MC_TreeA', ['tuple', 'ddict', 'deque', 'none'], [1], [0, 3], [0, 1]),
     'B2': ('MC_TreeA', ['list', 'nt', 'ss', 'custom', 'sub'], [1, 2], [0], [0]),
+    'F': ('MC_TreeA', ['tuple', 'dict', 'custom'], [1], [0], [0]),
     'K': ('MC_TreeK', ['dict', 'ddict'], [1], [0], [1]),
     'KO': ('MC_TreeK', ['dict', 'odict', 'tuple'], [1], [0], [1]),
 }
@@ -15,14 +16,14 @@ def tla_set(xs):
     return '{' + ', '.join(('"%s"' % x) if isinstance(x, str) else str(x) for x in xs) + '}'
 
 
-def cfg(alpha, max_nodes, max_stack, max_arity, invariants, ns=('', 'a', 'zz'), depth=10):
+def cfg(alpha, max_nodes, max_stack, max_arity, invariants, ns=('', 'a', 'zz'), depth=10, faults=()):
     mod, kinds, metas, maxlens, facs = ALPHABETS[alpha]
     lines = ['SPECIFICATION Spec', 'CONSTANTS',
              f'  MaxNodes = {max_nodes}', f'  MaxStack = {max_stack}', f'  MaxArity = {max_arity}',
              f'  Kinds = {tla_set(kinds)}', '  KeyU <- MCKeyU', '  NtCls <- MCNtCls', '  CustomCls <- MCCustomCls',
              f'  Metas = {tla_set(metas)}', f'  MaxLens = {tla_set(maxlens)}', f'  Factories = {tla_set(facs)}',
              '  Reg0 <- MCReg0', f'  NsSet = {tla_set(ns)}', '  ModeSet <- MCModeSet', '  PredSet <- MCPredSet',
-             f'  Depth = {depth}']
+             f'  Depth = {depth}', f'  Faults = {tla_set(faults)}']
     lines += [f'INVARIANT {i}' for i in invariants]
     lines.append('CHECK_DEADLOCK FALSE')
     return mod, '\n'.join(lines) + '\n'
